@@ -229,7 +229,8 @@ pub fn scenarios(thorough: bool) -> Vec<Scenario> {
         s
     }).collect();
     v.append(&mut rev);
-    v.extend(cross_scenarios(thorough));
+    // depth 2 in both tiers: every pair of operations from every prepared state
+    v.extend(cross_scenarios_depth(2));
     v
 }
 
